@@ -29,7 +29,7 @@ static void fuzz_printf(const std::string &f) {
 	}
 	std::string z = f; z.push_back('\0');
 	GuardedBuf gf(z.data(), z.size());
-	run_frigg(gf.data(), slots, huge);
+	run_frigg(gf.data(), slots, huge, hash_str(f) & 1);
 }
 
 static void fuzz_fmt(const std::string &f, int which) {
